@@ -40,7 +40,8 @@ def main():
                     d = compare(got, obs["result"], order=payload["flags"]["order"], index=payload["flags"]["index"], dtypes=True)
                     if d:
                         out = dict(d, ok=False)
-                    else:
+                    elif payload.get("form") != "lowered":
+                        # (compute() would re-optimize an already lowered plan: not a serialization matter)
                         got2 = coll.compute()
                         d = compare(got2, obs["result"], order=payload["flags"]["order"], index=payload["flags"]["index"], dtypes=True)
                         if d:
